@@ -91,6 +91,29 @@ var (
 	imp     types.Importer
 )
 
+// cachingImporter remembers every imported package by path: the source importer locates a package
+// with `go list` (one child process per import, each time) before it looks into its own cache.
+// All imports are resolved from the harness module's directory, so the path identifies the package.
+type cachingImporter struct {
+	inner types.ImporterFrom
+	pkgs  map[string]*types.Package
+}
+
+func (c *cachingImporter) Import(path string) (*types.Package, error) {
+	return c.ImportFrom(path, "", 0)
+}
+
+func (c *cachingImporter) ImportFrom(path, dir string, mode types.ImportMode) (*types.Package, error) {
+	if p, ok := c.pkgs[path]; ok {
+		return p, nil
+	}
+	p, err := c.inner.ImportFrom(path, dir, mode)
+	if err == nil && p != nil && p.Complete() {
+		c.pkgs[path] = p
+	}
+	return p, err
+}
+
 // TypeCheck type-checks one package made of the given files (name -> Go source), importing
 // dependencies from source (templ from /repo via the module replace). Returns the type errors.
 func TypeCheck(files map[string]string) (errs []error) {
@@ -100,7 +123,7 @@ func TypeCheck(files map[string]string) (errs []error) {
 		// go/build resolves module packages with `go list` run in build.Default.Dir (or the
 		// process's working directory): point it at the harness module.
 		build.Default.Dir = HarnessDir()
-		imp = importer.ForCompiler(impFset, "source", nil)
+		imp = &cachingImporter{inner: importer.ForCompiler(impFset, "source", nil).(types.ImporterFrom), pkgs: map[string]*types.Package{}}
 	}
 	fset := token.NewFileSet()
 	var parsed []*ast.File
